@@ -5,8 +5,6 @@ CONSTANTS
   Names = {"a", "b", "c", "NONE", "add_tag", "__class__", "x y"}
   ReservedNames = {"add_tag", "__class__"}
   ReservedPolicy = "overwrite"
-INVARIANT C19_Dense
-INVARIANT C19_Bijection
 INVARIANT C19_NotBroken
-PROPERTY C19_NextId
-PROPERTY C19_Independent
+\* (only the property this control must refute is listed: with several violated properties TLC's workers
+\*  would race for which one is reported first; the full list is checked on the right algorithm by the main cfg)
